@@ -168,11 +168,12 @@ theorem rejected_publish_enqueues_nothing (conf : Conf) (s : ConnState) (b : Bro
 /-- MPUB either enqueues the whole batch it decoded — all messages, in order, each within the
 limits — and answers OK, or answers a fatal error and enqueues nothing. -/
 theorem mpub_all_or_nothing (conf : Conf) (s : ConnState) (b : Broker) (ps : List Bytes) (rest : Bytes) :
-    (∃ t n r bodies r2, ps[1]? = some t ∧ readLen rest = some (n, r) ∧
-        Mpub.readMPUB conf.maxMsgSize conf.maxBodySize r = .ok bodies r2 ∧
+    (∃ t n r bodies r2, ps[1]? = some t ∧ readLen rest = some (n, r) ∧ 1 ≤ n ∧ n ≤ conf.maxBodySize ∧
+        Mpub.readMPUB conf.maxMsgSize conf.maxBodySize (r.take n.toNat) = .ok bodies r2 ∧
         (mpub conf s b ps rest).reply = some .ok ∧ (mpub conf s b ps rest).ctl = .cont ∧
         (mpub conf s b ps rest).broker = publish b t (toMsgs bodies) ∧
-        (mpub conf s b ps rest).eff = [.enq t (toMsgs bodies)] ∧ (mpub conf s b ps rest).rest = r2) ∨
+        (mpub conf s b ps rest).eff = [.enq t (toMsgs bodies)] ∧
+        (mpub conf s b ps rest).rest = r2 ++ r.drop n.toNat) ∨
     (∃ c, (mpub conf s b ps rest).reply = some (.err c) ∧ (mpub conf s b ps rest).ctl = .close ∧
         Untouched b (mpub conf s b ps rest).broker ∧ (mpub conf s b ps rest).eff = []) :=
   mpub_cases conf s b ps rest
@@ -192,29 +193,36 @@ example : (mpub Examples.conf Examples.conn [] [cMPUB, ascii "t"]
     ([0, 0, 0, 13, 0, 0, 0, 2, 0, 0, 0, 1, 97, 0, 0, 0, 0])).broker = [emptyTopic (ascii "t")] := by
   decide
 
-/-! ## 6. Candidate F10 settled: the declared MPUB body size does not bound the batch -/
+/-! ## 6. F10 repaired: the declared MPUB body size bounds the batch
 
-/-- The full statement one would like: the bytes an accepted MPUB consumes after its size field are
-at most the declared (and limited) body size. -/
-def mpub_total_le_body_limit : Prop :=
-  ∀ (conf : Conf) (s : ConnState) (b : Broker) (ps : List Bytes) (rest : Bytes) (n : Int) (r : Bytes),
-    readLen rest = some (n, r) → (mpub conf s b ps rest).reply = some .ok →
-    (r.length - (mpub conf s b ps rest).rest.length : Int) ≤ n
+Before `fixes/F10_mpub_body_limit.patch` `readMPUB` read from the connection itself and an MPUB
+could take in count × (4 + max-msg-size) bytes whatever size it had declared (witness: declared 1,
+batch of 14 bytes accepted). With the reader limited to the declared — and range-checked — size the
+full statement holds. -/
 
-/-- It is false of the code as it stands: `readMPUB` is bounded by count × (4 + max-msg-size), not
-by the declared size. Witness: declared size 1, a batch of 14 bytes. -/
-theorem mpub_total_le_body_limit_false : ¬ mpub_total_le_body_limit := by
-  intro h
-  have := h Examples.conf Examples.conn [] [cMPUB, ascii "t"]
-    ([0, 0, 0, 1] ++ Mpub.encode [[97], [98]]) 1 (Mpub.encode [[97], [98]]) (by decide) (by decide)
-  revert this
-  decide
+/-- The bytes an accepted MPUB consumes after its size field are at most the declared body size,
+which itself is within [1, max-body-size]: max-body-size is enforced for every MPUB. -/
+theorem mpub_total_le_body_limit (conf : Conf) (s : ConnState) (b : Broker) (ps : List Bytes) (rest : Bytes)
+    (n : Int) (r : Bytes) (hl : readLen rest = some (n, r)) (hok : (mpub conf s b ps rest).reply = some .ok) :
+    1 ≤ n ∧ n ≤ conf.maxBodySize ∧ ((r.length : Int) - ((mpub conf s b ps rest).rest.length : Int)) ≤ n :=
+  mpub_ok_bounds conf s b ps rest n r hl hok
 
-/-- What does hold: the bytes consumed are bounded by the limits alone —
-at most 4 + count × (4 + max-msg-size) with count ≤ (max-body-size − 4)/5. -/
-theorem mpub_consumed_partial (maxMsg maxBody : Int) (bs : Bytes) (bodies : List Bytes) (r : Bytes)
+/-- The bound by the limits alone still holds for the shared reader (HTTP passes it its own limit). -/
+theorem mpub_consumed_by_limits (maxMsg maxBody : Int) (bs : Bytes) (bodies : List Bytes) (r : Bytes)
     (h : Mpub.readMPUB maxMsg maxBody bs = .ok bodies r) :
     (bs.length - r.length : Int) ≤ 4 + Mpub.maxMessages maxBody * (4 + maxMsg) :=
   Nsq.Proofs.Mpub.readMPUB_consumed maxMsg maxBody bs bodies r h
+
+-- the former witness (declared size 1, batch of 14 bytes) is now answered E_BAD_BODY and enqueues nothing
+example : (mpub Examples.conf Examples.conn [] [cMPUB, ascii "t"] ([0, 0, 0, 1] ++ Mpub.encode [[97], [98]])).reply =
+    some (.err .E_BAD_BODY) := by decide
+-- a batch one byte longer than declared: E_BAD_MESSAGE, nothing enqueued (only the empty topic exists)
+example : (mpub Examples.conf Examples.conn [] [cMPUB, ascii "t"] ([0, 0, 0, 13] ++ Mpub.encode [[97], [98]])).reply =
+    some (.err .E_BAD_MESSAGE) ∧
+    (mpub Examples.conf Examples.conn [] [cMPUB, ascii "t"] ([0, 0, 0, 13] ++ Mpub.encode [[97], [98]])).broker =
+      [emptyTopic (ascii "t")] := by decide
+-- over-declared: accepted; exactly the batch is consumed, the rest of the stream is read as commands
+example : (mpub Examples.conf Examples.conn [] [cMPUB, ascii "t"]
+    ([0, 0, 0, 20] ++ Mpub.encode [[97], [98]] ++ ascii "NOP\n")).rest = ascii "NOP\n" := by decide
 
 end Nsq.Props.C09
